@@ -21,7 +21,7 @@
    defined in both kinds; the correspondence check compares model, spec and implementation on
    every generated class instead. *)
 From Coq Require Import ZArith NArith List String.
-From PV Require Import Gen.ClassConst Class.Syntax Class.SetK Class.UF Class.CBO Class.LCOM Class.LCOMProofs.
+From PV Require Import Gen.ClassConst Class.Syntax Class.SetK Class.UF Class.CBO Class.LCOM Class.LCOMProofs Class.RiskSpec Class.RiskMonoLCOM.
 Import ListNotations.
 Open Scope string_scope.
 Open Scope list_scope.
@@ -101,6 +101,14 @@ Theorem C14_risk_table : forall o n,
 Proof. exact lcom_risk_table. Qed.
 Theorem C14_default_thresholds : lo_low lcom_default_options = 2%Z /\ lo_medium lcom_default_options = 5%Z.
 Proof. exact lcom_default_thresholds. Qed.
+(* the risk level is monotone: fewer components never give a higher level (any thresholds), and raising
+   the thresholds never raises a level *)
+Theorem C14_risk_monotone : forall o n n', (n <= n')%Z ->
+  (risk_rank (lcom_assess_risk o n) <= risk_rank (lcom_assess_risk o n'))%Z.
+Proof. exact lcom_risk_mono. Qed.
+Theorem C14_risk_threshold_monotone : forall o o' n, (lo_low o <= lo_low o')%Z -> (lo_medium o <= lo_medium o')%Z ->
+  (risk_rank (lcom_assess_risk o' n) <= risk_rank (lcom_assess_risk o n))%Z.
+Proof. exact lcom_risk_threshold_mono. Qed.
 
 Print Assumptions C14_union_find.
 Print Assumptions C14_components.
@@ -115,3 +123,5 @@ Print Assumptions C14_single_method_spec.
 Print Assumptions C14_count_is_number_of_groups.
 Print Assumptions C14_risk_table.
 Print Assumptions C14_default_thresholds.
+Print Assumptions C14_risk_monotone.
+Print Assumptions C14_risk_threshold_monotone.
